@@ -58,8 +58,36 @@ package fetcher
 //@   assert before call#1 getDAGBlock: maphas(vf.mergedCids, c) && !old(maphas(vf.mergedCids, c))
 //@   ensures old(maphas(vf.mergedCids, c)) ==> err == nil
 //@   tags C03
+//@ extern client.NewErr* -> (e)
+//@   ensures e != nil
+//@ extern NewErr* -> (e)
+//@   ensures e != nil
+//@ // a commit that has not been applied in this seek is applied (whatever schema version wrote it), and
+//@ // so is everything it links to
+//@ func (*VersionedFetcher).merge
+//@   ensures err == nil && !old(maphas(vf.mergedCids, c)) ==> called(ProcessBlock, 1) && res(ProcessBlock, 1, 0) == nil && exhausted(1)
+//@   assert before call#1 ProcessBlock: arg2 == res(getDAGBlock, 1, 0) && callarg(getDAGBlock, 1, 1) == c
+//@   assert before call#1 merge: arg0 == vf && arg1 == rangeslice1[rangeindex1+1].Cid
+//@   loop 1 ranges res(AllLinks, 1, 0)
+//@   loop 1 every-iteration call#1 merge
+//@   tags C03
+//@ // every seek starts from an empty applied set and an empty queue, and replays everything that was queued
 //@ func (*VersionedFetcher).seekTo -> (err)
-//@   assert before call#1 seekNext: arg1 == c
+//@   assert before call#1 seekNext: arg1 == c && arg2 && arg0 == vf
+//@   assert before call#1 seekNext: !maphas(vf.mergedCids, c)
+//@   assert before call#1 merge: arg0 == vf
+//@   ensures err == nil ==> called(seekNext, 1) && res(seekNext, 1, 0) == nil
+//@   tags C03
+//@ // the block of the commit, of every parent and of every link is copied into the transient store
+//@ func (*VersionedFetcher).seekNext -> (err)
+//@   assert before call#1 seekNext: arg0 == vf && arg1 == rangeslice1[rangeindex1+1].Cid && arg2
+//@   assert before call#2 seekNext: arg0 == vf && arg1 == rangeslice2[rangeindex2+1].Link.Cid && exhausted(1)
+//@   loop 1 ranges res(GetFromBytes, 1, 0).Heads
+//@   loop 1 every-iteration call#1 seekNext
+//@   loop 2 ranges res(GetFromBytes, 1, 0).Links
+//@   loop 2 every-iteration call#2 seekNext
+//@   ensures err == nil && called(GetFromBytes, 1) ==> exhausted(2)
+//@   assert before call#1 Put: arg2 == res(Get, 1, 0) && callarg(Get, 1, 2) == c
 //@   tags C03
 //@
 //@ // ===== C10: time-travel reads (and subscriptions, which use them) go through the same guard: the inner
